@@ -23,7 +23,25 @@ Inductive obs :=
 | BInput (node : N) (cols : list (relcol * cid))   (* `instance`: the columns of the TableRef created for PL node `node` *)
 | BRedirect (pairs : list (cid * cid)) (* `redirect`: the HashMap applied by redirect_mappings, as sorted pairs *)
 | BDepth (n : N)                       (* number of suspended pipelines + 1 (relation_begin nesting) *)
-| BFrame (f : list (relcol * cid)).    (* `relation_end`: the columns and the closing Select push_select returned *)
+| BFrame (f : list (relcol * cid))     (* `relation_end`: the columns and the closing Select push_select returned *)
+| BLookup (post : bool) (node : N) (name : option str) (res : option cid)
+                                       (* `lookup_in` [`lookup_out`] (hooks/lookup-cid.diff): one call of Lowerer::lookup_cid and its result
+                                          (None = an error); post = the read happened after the operation's instance / redirect
+                                          (a join filter), so it sees node_mapping as the operation leaves it *)
+| BLookupAll (post : bool) (node : N) (cids : list cid).
+                                       (* `lookup_all`: declare_as_columns on a reference to a whole input *)
+
+(* Lowerer::lookup_cid on node_mapping *)
+Definition lookup_cid_m (m : list (N * target)) (id : N) (name : option str) : option cid :=
+  match lookup_node m id with
+  | Some (MCompute c) => Some c
+  | Some (MInput cols) =>
+      match name with
+      | Some v => option_map snd (find (fun rc => relcol_eqb (fst rc) (RSingle (Some v))) cols)
+      | None => None
+      end
+  | None => None
+  end.
 
 Fixpoint last_opt {A} (l : list A) : option A :=
   match l with [] => None | [x] => Some x | _ :: l' => last_opt l' end.
@@ -51,7 +69,7 @@ Definition same_pairs (a b : list (cid * cid)) : bool :=
 Definition op_frame (o : op) : list (relcol * cid) :=
   match o with OEndTable _ f => f | OEndInline _ f _ => f | _ => [] end.
 
-Definition check_obs (s' : lstate) (o : op) (b : obs) : bool :=
+Definition check_obs (s s' : lstate) (o : op) (b : obs) : bool :=
   match b with
   | BTop t => match top_last s' with Some t' => transform_eqb t' t | None => false end
   | BCid node c => match lookup_node (mapping s') node with Some (MCompute c') => N.eqb c c' | _ => false end
@@ -78,6 +96,12 @@ Definition check_obs (s' : lstate) (o : op) (b : obs) : bool :=
       end
   | BDepth n => N.eqb (N.of_nat (length (frames s'))) n
   | BFrame f => list_eqb (pair_eqb rc_eqb N.eqb) (op_frame o) f
+  | BLookup post node name res => option_eqb N.eqb (lookup_cid_m (mapping (if post then s' else s)) node name) res
+  | BLookupAll post node cids =>
+      match lookup_node (mapping (if post then s' else s)) node with
+      | Some (MInput ic) => cids_eqb (map snd ic) cids
+      | _ => false
+      end
   end.
 
 (* inl = final state; inr k = operation number k (from 0) is not a step of the machine, or the state after it does not
@@ -87,7 +111,7 @@ Fixpoint run_obs (s : lstate) (l : list (op * list obs)) (k : nat) : lstate + na
   | [] => inl s
   | (o, bs) :: l' =>
       match step s o with
-      | Some s' => if forallb (check_obs s' o) bs then run_obs s' l' (S k) else inr k
+      | Some s' => if forallb (check_obs s s' o) bs then run_obs s' l' (S k) else inr k
       | None => inr k
       end
   end.
